@@ -45,7 +45,7 @@ Proof.
              (fun r Hr => root_val_exists _ _ _ _ _ r C Hr)).
   rewrite (vq_eq vals Hvals), vsum_wsP. unfold quorum_on. f_equal.
   change (wsumP ws ?P) with (wsP ws P). apply wsP_ext. intros i Hi. rewrite map_length in Hi.
-  destruct (frame_roots_for lam vals st es T Dr R g C) as [ms [RF [IM EM]]].
+  destruct (frame_roots_for lam vals st es T Dr R g C) as [ms [RF [IM [EM _]]]].
   unfold roots_of. change (filter (fun r => r_frame r =? g) (l_roots st)) with (get_frame_roots st g). rewrite EM.
   pose proof (Core_wfT _ _ _ _ _ _ _ C) as W. pose proof (co_sub _ _ _ _ _ _ _ C) as Sub.
   apply eq_true_iff_eq. unfold ElectionSpec.by_cr. rewrite !existsb_exists. split.
